@@ -399,6 +399,68 @@ fn stale_height_threshold(subjective_head: u64) -> u64 {
     subjective_head.saturating_sub(ROOT_HASH_WINDOW)
 }
 
+/// Verification hooks: read-only view of the private state, used as de-duplication key by
+/// the model-checking harness.  No logic.
+#[cfg(eigerco_lumina_verif)]
+impl<S> PoolTracker<S> {
+    /// Canonical (sorted) rendering of every private field except the store and the
+    /// futures themselves (of which only the count is shown).
+    pub(crate) fn verif_snapshot(&self) -> String {
+        let mut pools: Vec<String> = self
+            .hash_pools
+            .iter()
+            .map(|(height, pool)| match pool {
+                PeerPool::Candidates((voted, candidates)) => {
+                    let mut voted: Vec<String> = voted.iter().map(|p| p.to_string()).collect();
+                    voted.sort();
+                    let mut cands: Vec<String> = candidates
+                        .iter()
+                        .map(|(hash, peers)| {
+                            let mut peers: Vec<String> =
+                                peers.iter().map(|p| p.to_string()).collect();
+                            peers.sort();
+                            format!("{hash}={peers:?}")
+                        })
+                        .collect();
+                    cands.sort();
+                    format!("{height:020}:C{voted:?}{cands:?}")
+                }
+                PeerPool::Validated(hash) => format!("{height:020}:V{hash}"),
+            })
+            .collect();
+        pools.sort();
+        let mut validated: Vec<String> = self
+            .validated_pools
+            .iter()
+            .map(|(key, peers)| {
+                let mut peers: Vec<String> = peers.iter().map(|p| p.to_string()).collect();
+                peers.sort();
+                format!("{key}={peers:?}")
+            })
+            .collect();
+        validated.sort();
+        let pending: Vec<String> = self
+            .pending_events
+            .iter()
+            .map(|ev| {
+                let (name, peers) = match ev {
+                    Event::AddPeers(peers) => ("add", peers.as_slice()),
+                    Event::BlockPeers(peers) => ("block", peers.as_slice()),
+                    Event::SchedulePendingRequests => ("schedule", [].as_slice()),
+                };
+                let mut peers: Vec<String> = peers.iter().map(|p| p.to_string()).collect();
+                peers.sort();
+                format!("{name}{peers:?}")
+            })
+            .collect();
+        format!(
+            "head={:?} pools={pools:?} validated={validated:?} tasks={} pending={pending:?}",
+            self.subjective_head,
+            self.new_headers_tasks.len(),
+        )
+    }
+}
+
 #[cfg(test)]
 mod tests {
     use super::*;
